@@ -126,8 +126,7 @@ class Ctx:
     def coq_build(self, prop_file, deps_timeout=1500):
         """full .vo build of theories/<prop_file>.v and everything it depends on.
         returns (ok, assumptions:set). Failure is recorded in self.broken."""
-        with Lock('coq'):
-            rc, out = sh(os.path.join(ROOT, 'tools/coq_make.sh') + ' theories/%s.vo' % prop_file, timeout=deps_timeout, cwd=COQ)
+        rc, out = sh(os.path.join(ROOT, 'tools/coq_make.sh') + ' theories/%s.vo' % prop_file, timeout=deps_timeout, cwd=COQ)
         logp = os.path.join(self.work, 'coq_%s.log' % prop_file)
         open(logp, 'w').write(out)
         stats = self._count_obligations(prop_file)
@@ -147,7 +146,7 @@ class Ctx:
         if bad:
             self.broken.append(dict(kind='proof', name='Print Assumptions', detail='non-whitelisted axioms: %s' % bad))
             return False, ax
-        g = self.hygiene()
+        g = self.hygiene(prop_file)
         if g:
             self.broken.append(dict(kind='proof', name='hygiene gate', detail=g))
             return False, ax
@@ -204,8 +203,11 @@ class Ctx:
             ax.add(m.group(1))
         return ax
 
-    def hygiene(self):
-        rc, out = sh(r"grep -rnE '\b(Admitted|admit|Axiom|Axioms|Parameter|Parameters|Conjecture|Conjectures|Abort All)\b|Unset Guard|Unset Positivity|Unset Universe|bypass_check|type-in-type|impredicative-set|Admit Obligations' --include='*.v' theories _CoqProject", cwd=COQ)
+    def hygiene(self, prop_file=None):
+        """no Admitted / admit / Axiom / Parameter / ... in the files this property depends on (and none in _CoqProject flags)"""
+        files = ['theories/%s.v' % f for f in (self._deps(prop_file) if prop_file else [])] or ['theories']
+        pat = r"\b(Admitted|admit|Axiom|Axioms|Parameter|Parameters|Conjecture|Conjectures|Abort All)\b|Unset Guard|Unset Positivity|Unset Universe|bypass_check|type-in-type|impredicative-set|Admit Obligations"
+        rc, out = sh(['grep', '-rnE', pat, '--include=*.v'] + files + ['_CoqProject'], cwd=COQ)
         lines = [l for l in out.splitlines() if l.strip() and not re.search(r'\(\*.*hygiene-ok.*\*\)', l)]
         return '\n'.join(lines[:20]) if lines else ''
 
